@@ -2472,7 +2472,21 @@ impl Compiler {
     ) -> Result<(), JsError> {
         // Extract function metadata
         let name = func.id.as_ref().map(|id| id.name.cheap_clone());
-        self.compile_function_expression_with_name(func, dst, name)
+        let Some(own_name) = name.clone() else {
+            return self.compile_function_expression_with_name(func, dst, name);
+        };
+        // A named function expression can refer to itself by its name: the name is bound in
+        // a scope of its own around the closure, invisible outside
+        self.emit_push_scope();
+        self.compile_function_expression_with_name(func, dst, name)?;
+        let name_idx = self.builder.add_string(own_name)?;
+        self.builder.emit(Op::DeclareVar {
+            name: name_idx,
+            init: dst,
+            mutable: false,
+        });
+        self.emit_pop_scope();
+        Ok(())
     }
 
     /// Compile function expression with an optional inferred name
